@@ -126,12 +126,14 @@ func ApplyForURL(url string, timeout time.Duration, opts *Options) (*Result, err
 	}
 
 	// Apply distiller to response body
-	if opts == nil {
-		opts = &Options{}
+	// Work on a copy, so the options owned by the caller are left untouched.
+	urlOpts := Options{}
+	if opts != nil {
+		urlOpts = *opts
 	}
 
-	opts.OriginalURL = parsedURL
-	return ApplyForReader(resp.Body, opts)
+	urlOpts.OriginalURL = parsedURL
+	return ApplyForReader(resp.Body, &urlOpts)
 }
 
 // ApplyForFile runs distiller for the specified file.
